@@ -40,6 +40,9 @@ type Node struct {
 	// InBody: a call written in the body of a definition (survives the
 	// substitution into a calling template; for labels only).
 	InBody bool
+	// OneLine: a long piece of a body (table on one line): the layout printer
+	// writes it without a continuation inside.
+	OneLine bool
 }
 
 func lit(s string) *Node              { return &Node{K: kLit, S: s} }
@@ -269,6 +272,9 @@ type Def struct {
 	// TopArgs: parameters referenced as a top-level piece of the body; their
 	// arguments are spliced into running text, so they must be blank-free.
 	TopArgs map[int]bool
+	// Long: the body holds a piece of more than 4096 bytes written on one
+	// physical line.
+	Long bool
 	// UsesCacheTime etc. are not needed: stateful helpers are kept out of
 	// funcs cases by the generator.
 }
